@@ -287,7 +287,21 @@ main (int argc, char **argv)
 		  if (m == nullptr || *m == 0)
 		    std::cout << "A CONTRACT empty-message\n";
 		  else
-		    std::cout << "A err " << hex (m) << "\n";
+		    {
+		      // the message speaks about the input alone: rejecting the same bytes again gives the same message
+		      std::string m1 = m;
+		      zw_error *err2 = nullptr;
+		      zw_query *zq2 = zw_query_parse_len (voc, buf, q.size (), &err2);
+		      char const *m2 = err2 != nullptr ? zw_error_message (err2) : nullptr;
+		      if (zq2 != nullptr || m2 == nullptr || m1 != m2)
+			std::cout << "A CONTRACT unstable-message " << hex (m1) << " " << hex (m2 ? m2 : "") << "\n";
+		      else
+			std::cout << "A err " << hex (m) << "\n";
+		      if (zq2 != nullptr)
+			zw_query_destroy (zq2);
+		      if (err2 != nullptr)
+			zw_error_destroy (err2);
+		    }
 		  zw_error_destroy (err);
 		}
 	      else
